@@ -29,22 +29,45 @@ def special_batches(ctx, focus, cases, descr):
     A_, B_, C_ = (Category.parse(x) for x in 'ABC')
     cats = [A_, B_, C_]
     dead = Category.parse('Zdead')
-    for variant in ('wide', 'strings'):
+    for variant in ('wide', 'strings', 'after_failed_call'):
         bseed = f'{ctx.seed}:{focus}:special:{variant}'
         c = _TagFail(ctx, bseed)
         hl = rng.random() < 0.5
+        if variant == 'after_failed_call':
+            # several differently labelled results per pair and per unary category; first a call whose rule function hands back a list
+            # whose LAST element is malformed (the call is abandoned in the middle of a result list), then an ordinary call in the same process
+            table = {(x, y): [CombinatorResult(cat=C_, op_string=f'r1{x}{y}', op_symbol='<r1>', head_is_left=hl),
+                              CombinatorResult(cat=B_, op_string=f'r2{x}{y}', op_symbol='<r2>', head_is_left=not hl),
+                              CombinatorResult(cat=C_, op_string=f'r3{x}{y}', op_symbol='<r3>', head_is_left=not hl)] for x in cats for y in cats}
+            utable = {A_: [CombinatorResult(cat=B_, op_string='ua', op_symbol='<ua>', head_is_left=True), CombinatorResult(cat=C_, op_string='ub', op_symbol='<ub>', head_is_left=True)]}
+            bad = rng.choice([CombinatorResult(cat=C_, op_string=None, op_symbol='<bad>', head_is_left=True), CombinatorResult(cat=C_, op_string='bad', op_symbol=7, head_is_left=True)])
+            ptable = {k_: [CombinatorResult(cat=r.cat, op_string='p' + r.op_string, op_symbol='<p>', head_is_left=r.head_is_left) for r in v_] + [bad] for k_, v_ in table.items()}
+            putable = {k_: [CombinatorResult(cat=r.cat, op_string='p' + r.op_string, op_symbol='<p>', head_is_left=True) for r in v_] + [bad] for k_, v_ in utable.items()}
+            for which in rng.sample(['binary', 'unary', 'binary'], 2):
+                s0 = glue.rand_sentence(rng, 3, n=2)
+                s0.tokens = [gen.rand_token(rng, 'en', full=False, plain=True) for _ in range(2)]
+                pb = (lambda x, y: list(ptable.get((x, y), []))) if which == 'binary' else (lambda x, y: list(table.get((x, y), [])))
+                pu = (lambda x: list(putable.get(x, []))) if which == 'unary' else (lambda x: [])
+                if which == 'unary':
+                    s0.tag[:, :] = -5.0
+                    s0.tag[:, 0] = -0.125      # A, the category with unary rules
+                try:
+                    glue.run([s0], cats, cats, pb, pu, unary_penalty=0.125, beta=0.1, use_beta=False, pruning_size=50, nbest=1, max_step=20000, max_length=250)
+                    ctx.count('glue:special:malformed_rule_result_accepted')
+                except Exception:      # noqa
+                    ctx.count('glue:special:malformed_rule_result_raised:' + which)
         if variant == 'wide':
             nres = rng.randint(259, 300)
             table = {(A_, B_): [CombinatorResult(cat=(dead if i < 256 else cats[i % 3]), op_string=f'w{i}', op_symbol=f'<w{i}>', head_is_left=hl) for i in range(nres)]}
             # (a rule name / symbol may be any string, the empty one included)
             utable = {A_: [CombinatorResult(cat=(dead if j < 256 else B_), op_string=('' if j % 2 == 0 else f'u{j}'), op_symbol=('' if j % 2 == 1 else f'<u{j}>'), head_is_left=True)
                            for j in range(nres)]}
-        else:
+        elif variant == 'strings':
             table = {(x, y): [CombinatorResult(cat=C_, op_string=f'r{x}{y}', op_symbol='<r>', head_is_left=hl)] for x in cats for y in cats}
             utable = {}
         binary, unary = (lambda x, y: list(table.get((x, y), []))), (lambda x: list(utable.get(x, [])))
         sents = []
-        for n in ((2, 1, 2) if variant == 'wide' else (3, 2, 4)):
+        for n in ((2, 1, 2) if variant == 'wide' else (1, 3, 2, 4) if variant == 'after_failed_call' else (3, 2, 4)):
             s = glue.rand_sentence(rng, 3, n=n)
             s.tokens = [gen.rand_token(rng, 'en', full=False, plain=True) for _ in range(n)]
             if variant == 'wide':
@@ -52,13 +75,15 @@ def special_batches(ctx, focus, cases, descr):
                 s.tag[0, 0] = -0.125            # A
                 if n > 1:
                     s.tag[1, 1] = -0.25         # B
-            else:
+            elif variant == 'strings':
                 for j in range(1, n):
                     s.tokens[j] = rng.choice(['-LRB-', '-RRB-', '-LCB-', '-RSB-', 'word', "n't"])
             sents.append(s)
         nbest = 1 if variant == 'wide' else rng.choice([1, 2])
+        if variant == 'after_failed_call':
+            sents[0].tag[0, :] = [-0.125, -3.0, -4.0]      # the first lookup of the call is a unary one with two results
         try:
-            roots_ = [B_, C_] if variant == 'wide' else cats        # wide: the lexical category A is no root, a one-word sentence needs the unary rule
+            roots_ = [B_, C_] if variant in ('wide', 'after_failed_call') else cats        # wide: the lexical category A is no root, a one-word sentence needs the unary rule
             res, rec = glue.run(sents, cats, roots_, binary, unary, unary_penalty=0.125, beta=0.1, use_beta=False, pruning_size=2 if variant == 'wide' else 50,
                                 nbest=nbest, max_step=20000, max_length=250)
         except Exception as e:      # noqa
